@@ -601,7 +601,8 @@ class Explorer:
                 bb = t.target
                 continue
             if k == "assert":
-                p.events.append(("assert", bb, t))
+                p.events.append(("assert", bb, t, (self.eval_operand(env, t.a) if t.a is not None else None,
+                                                   self.eval_operand(env, t.b) if t.b is not None else None)))
                 p.labels.append("")
                 bb = t.target
                 continue
@@ -628,7 +629,10 @@ class Explorer:
                     val = ("errconv", argv[0][1])
                 else:
                     val = ("call", ck, argv, bb)
-                p.events.append(("call", bb, t, argv))
+                kv = None
+                if t.cname in ("unwrap", "expect", "unwrap_unchecked") and argv:
+                    kv = self.known_variant(argv[0], p.cons)
+                p.events.append(("call", bb, t, argv, kv))
                 # a call that receives &mut into a param may change its fields
                 if not flow.is_transparent(t):
                     for a, av in zip(t.args, argv):
@@ -660,19 +664,19 @@ class Explorer:
                     lab, tb, upd = succs[0]
                     upd(p.cons)
                     p.labels.append(lab)
-                    p.tests.append((bb, vtxt, lab, v, expl))
+                    p.tests.append((bb, vtxt, lab, v, expl)); p.events.append(("test", bb, len(p.tests) - 1))
                     bb = tb
                     continue
                 for lab, tb, upd in succs[1:]:
                     q = self._fork(p)
                     upd(q.cons)
                     q.labels.append(lab)
-                    q.tests.append((bb, vtxt, lab, v, expl))
+                    q.tests.append((bb, vtxt, lab, v, expl)); q.events.append(("test", bb, len(q.tests) - 1))
                     self._walk(tb, q, visits, out)
                 lab, tb, upd = succs[0]
                 upd(p.cons)
                 p.labels.append(lab)
-                p.tests.append((bb, vtxt, lab, v, expl))
+                p.tests.append((bb, vtxt, lab, v, expl)); p.events.append(("test", bb, len(p.tests) - 1))
                 bb = tb
                 continue
             raise RuntimeError("unknown terminator " + k)
